@@ -28,6 +28,7 @@ func runC06(c *Ctx) {
 	c.ruleBarrierComposition("R06.6")
 	// the barrier sees every dispatch: the step reserves its slot before it reads the status
 	c.ruleReserveThenCheck("R06.7")
+	c.ruleDecrementAfterClose("R06.8")
 }
 
 // predicateLeaves maps the operands of the barrier predicates to an abstract state.
@@ -351,5 +352,25 @@ func (c *Ctx) ruleBarrierComposition(rule string) {
 				c.Rep.check(good, rule, m, "from "+s+": tear-down before the wait", o.End, m+" from "+s+": "+o.String(), m+" from "+s+" must wait for the in-flight jobs before tearing anything down and before storing Stopped: "+o.String())
 			}
 		}
+	}
+}
+
+// ruleDecrementAfterClose: a barrier call returns when it sees no pending and no in-flight job; "the job is over" has to
+// include its Close (which acknowledges it on persistent/distributed queues and releases its Wait). In the completion
+// callback the in-flight decrement therefore comes after the worker function, the Finished store and the Close.
+func (c *Ctx) ruleDecrementAfterClose(rule string) {
+	R := c.R
+	c.Rep.rule(rule, "E2 path", "completion callback: worker function, Close, and only then the in-flight decrement", 1)
+	if R.Completion == nil {
+		return
+	}
+	v := c.vocab([]string{"wf", "close", "inflight-"}, map[string]bool{"close": true})
+	for _, sg := range v.seq(rule, false).segments(R.Completion) {
+		if sg.Kind != "path" || !sg.has("inflight-") {
+			continue
+		}
+		good := sg.has("wf") && sg.has("close") && sg.index("wf") < sg.index("close") && sg.lastIndex("close") < sg.index("inflight-")
+		c.Rep.check(good, rule, R.Completion.Short(), "slot released before the job is closed", sg.End, "wf, close, then inflight-",
+			"the completion callback lowers the in-flight counter before the job has been closed (acknowledged): a barrier call arriving in between sees nothing pending and nothing in flight and returns, although the job is not yet acknowledged — after WaitAndStop and process exit it would be redelivered ["+strings.Join(sg.Syms, " ")+"]")
 	}
 }
